@@ -63,7 +63,7 @@ static void sync_monitor(const Instance& f) {
   for (int s = 0; s < VM_NS; ++s) { g_entered[s] = spec_active(f, s); g_enter_count[s] = 0; g_exit_count[s] = 0; g_exit_guard_ran[s] = false; g_entry_guard_ran[s] = false; }
   for (int s = 0; s < VM_NS; ++s) g_this[s] = nullptr; g_this_consistent = true;
 #ifdef VM_INJECT
-  for (int s = 0; s < VM_NS; ++s) { g_inj_mark[s] = 0; g_own_mark[s] = 0; }
+  for (int s = 0; s < VM_NS; ++s) { g_inj_mark[s] = 0; g_own_mark[s] = 0; g_inj_entered[s] = spec_active(f, s); }
 #endif
   g_seq_len = 0; g_guard_calls = 0; g_in_processing = false; g_round_cancelled = false; g_guards_forbidden = false; g_expect_guards = false; g_watch_pending = false; g_pend_seen = 0; g_pend_stable = true; for (int s = 0; s < VM_NS; ++s) { g_pend_enter[s] = g_pend_exit[s] = g_pend_change[s] = 0; }
   for (int s = 0; s < VM_NS; ++s) { g_sel_called[s] = g_rank_called[s] = g_util_called[s] = false; } g_rng_draws = 0;
